@@ -41,8 +41,9 @@ def standin_constant_model(tier, seed):
     from leaspy.io.data import Data
     violations, evals, distinct, samples = [], 0, set(), []
     base_vals = [0.1, 0.7, 0.4]
-    for n_vis in (1, 2, 3):
-        ages0 = [70.5, 61.25, 66.0][:n_vis]
+    # two age scales: ages in years, and times relative to an event (zero and negative times are valid visit times)
+    for n_vis, age_set in itertools.product((1, 2, 3), ([70.5, 61.25, 66.0], [0.0, -1.5, -0.5])):
+        ages0 = age_set[:n_vis]
         for nanmask in itertools.product([0, 1], repeat=n_vis * 2):
             vals = np.array([[base_vals[(i + f) % 3] + 0.01 * i for f in range(2)] for i in range(n_vis)], dtype=float)
             for q, bit in enumerate(nanmask):
@@ -53,7 +54,7 @@ def standin_constant_model(tier, seed):
             for perm in itertools.permutations(range(n_vis)):
                 rows = [("subj", ages0[i], vals[i, 0], vals[i, 1]) for i in perm]
                 # a second individual with complete data so that no feature column is entirely missing in the table
-                rows += [("other", 60.0, 0.3, 0.3)]
+                rows += [("other", 60.0 if ages0[0] > 0 else -3.0, 0.3, 0.3)]
                 df = pd.DataFrame(rows, columns=["ID", "TIME", "A", "B"])
                 try:
                     data = Data.from_dataframe(df)
@@ -73,7 +74,7 @@ def standin_constant_model(tier, seed):
                     got = ips["subj"]
                     want = oracle(kind, ages, kv)
                     evals += 1
-                    distinct.add((n_vis, nanmask, kind))
+                    distinct.add((n_vis, tuple(ages0), nanmask, kind))
                     g = [got["A"], got["B"]]
                     ok = all((math.isnan(a) and math.isnan(b)) or abs(a - b) < 1e-6 for a, b in zip(g, want))
                     if not ok:
